@@ -34,7 +34,7 @@ def known_alternative(P, T, tk, m, pm, type_names):
 
 
 def check_doc(part, sess, P, text, T, rng, max_ids, open_ids=frozenset()):
-    uri = sess.open(text, "c12_")
+    uri = sess.open(text, "c12_", prefer=feat.type_decl_spans(P, text))
     ids = feat.idents(P)
     pm = feat.proc_of_tokens(P); type_names = {t.name: t for t in P.types}
     sample = ids if len(ids) <= max_ids else rng.sample(ids, max_ids)
